@@ -183,6 +183,6 @@ func l1ClassifyFileCase(c l1FileCase) (bool, []string) {
 func TestL1File(t *testing.T) {
 	pbt.Run(t, pbt.Spec[l1FileCase]{
 		ID: "C11", Name: "l1-file", Gen: l1GenFileCase, Run: l1RunFileCase, Classify: l1ClassifyFileCase,
-		Quick: 3000, Thorough: 20000,
+		Quick: 3000, Thorough: 6000,
 	})
 }
